@@ -671,4 +671,76 @@ example : resolve (PV.ofPlain (.map ["a".toList] [.list [.int 7, .str "x".toList
   have e : Nat.toDigits 10 1 = ['1'] := by decide
   simp [resolve, stepSeg, PV.ofPlain, PV.ofPlainVals, PV.ofPlainList, PV.lookupKV, nthBySeg, Path.extendStr, Path.extendNat, Path.root, e]
 
+/-! ### a pointer names one place: different segment lists give different pointers -/
+
+def flatSegs (segs : List Str) : Str := segs.flatMap fun s => '/' :: s
+
+theorem ptrOf_eq_flat (base : Str) (segs : List Str) : ptrOf base segs = base ++ flatSegs segs := by
+  induction segs generalizing base with
+  | nil => simp [ptrOf, flatSegs]
+  | cons s ss ih => rw [ptrOf_cons, ih]; simp [flatSegs, List.append_assoc]
+
+/-- a tail that is empty or starts with the separator -/
+def SepTail (x : Str) : Prop := x = [] ∨ ∃ r, x = '/' :: r
+
+theorem flatSegs_sepTail (segs : List Str) : SepTail (flatSegs segs) := by
+  cases segs with
+  | nil => exact Or.inl rfl
+  | cons s ss => exact Or.inr ⟨s ++ flatSegs ss, by simp [flatSegs]⟩
+
+theorem seg_split (s t x y : Str) (hs : '/' ∉ s) (ht : '/' ∉ t) (hx : SepTail x) (hy : SepTail y)
+    (h : s ++ x = t ++ y) : s = t ∧ x = y := by
+  induction s generalizing t with
+  | nil =>
+    cases t with
+    | nil => exact ⟨rfl, by simpa using h⟩
+    | cons d t' =>
+      exfalso
+      simp only [List.nil_append, List.cons_append] at h
+      rcases hx with rfl | ⟨r, rfl⟩
+      · cases h
+      · injection h with h1 _
+        exact ht (by rw [← h1]; simp)
+  | cons c s' ih =>
+    cases t with
+    | nil =>
+      exfalso
+      simp only [List.nil_append, List.cons_append] at h
+      rcases hy with rfl | ⟨r, rfl⟩
+      · cases h
+      · injection h with h1 _
+        exact hs (by rw [h1]; simp)
+    | cons d t' =>
+      simp only [List.cons_append] at h
+      injection h with h1 h2
+      subst h1
+      obtain ⟨e1, e2⟩ := ih t' (fun hm => hs (List.mem_cons_of_mem _ hm)) (fun hm => ht (List.mem_cons_of_mem _ hm)) h2
+      exact ⟨by rw [e1], e2⟩
+
+theorem flatSegs_injective (a b : List Str) (ha : ∀ s ∈ a, '/' ∉ s) (hb : ∀ s ∈ b, '/' ∉ s)
+    (h : flatSegs a = flatSegs b) : a = b := by
+  induction a generalizing b with
+  | nil =>
+    cases b with
+    | nil => rfl
+    | cons t ts => simp [flatSegs] at h
+  | cons s ss ih =>
+    cases b with
+    | nil => simp [flatSegs] at h
+    | cons t ts =>
+      have h' : s ++ flatSegs ss = t ++ flatSegs ts := by
+        simpa [flatSegs] using h
+      obtain ⟨e1, e2⟩ := seg_split s t _ _ (ha s (by simp)) (hb t (by simp)) (flatSegs_sepTail ss) (flatSegs_sepTail ts) h'
+      rw [e1, ih ts (fun x hx => ha x (List.mem_cons_of_mem _ hx)) (fun x hx => hb x (List.mem_cons_of_mem _ hx)) e2]
+
+/-- **a reported pointer identifies one place**: two segment lists (keys without `/`, the empty key included, and
+    decimal indices) that yield the same pointer are the same list - so `/limits//size` (below the empty key) and
+    `/limits/size` can never be confused -/
+theorem C10_pointer_identifies_place (a b : List Str) (ha : ∀ s ∈ a, '/' ∉ s) (hb : ∀ s ∈ b, '/' ∉ s)
+    (h : ptrOf [] a = ptrOf [] b) : a = b := by
+  rw [ptrOf_eq_flat, ptrOf_eq_flat] at h
+  exact flatSegs_injective a b ha hb (by simpa using h)
+
+example : ptrOf [] ["limits".toList, [], "size".toList] ≠ ptrOf [] ["limits".toList, "size".toList] := by decide
+
 end Guard.C10
